@@ -256,6 +256,7 @@ class Interp:
         self.assume_asserts = assume_asserts
         self.cur_mod: Optional[ModInfo] = None
         self.decide: Optional[Callable[[Any], Optional[bool]]] = None  # schema assumptions
+        self.super_hook: Optional[Callable[..., Any]] = None  # model of external base-class methods
         self.call_stack: List[str] = []
         self._with_stack: List[List[Any]] = []
         from . import extlib  # late import (extlib uses this module's names)
@@ -1465,7 +1466,11 @@ class Interp:
                     if isinstance(r, FuncV):
                         e2 = dict(kwargs)
                         return self._call_super_func(r, b, selfv, args, e2, n)
-        self.log("super", n, method=meth, args=args, kwargs=kwargs, obj=selfv)
+        self.log("super", n, method=meth, args=args, kwargs=kwargs, obj=selfv, cls=cls)
+        if self.super_hook is not None:
+            r = self.super_hook(self, selfv, cls, meth, args, kwargs)
+            if r is not NotImplemented:
+                return r
         if meth in ("__init__",):
             return None
         return TV(T("super", (meth, tuple(_term(a) for a in args), tuple(sorted((k, _term(v)) for k, v in kwargs.items())))), kind="opaque")
